@@ -131,6 +131,8 @@ func (m *Machine) recordObl(st *State, fr *Frame, kind, detail string, goal *Ter
 		}
 	}
 	o.PC = append([]*Term{}, st.pc...)
+	o.origins = m.origins
+	o.DefDeps = st.defDeps
 	if trivial {
 		o.Status = "unsat"
 		o.Solver = "simplifier"
